@@ -33,10 +33,13 @@ type Config struct {
 	Slice []int `json:"slice,omitempty"`
 	// joinsc: the caller overwrites every element of its list right after the call returned (it reuses the slice).
 	// The join must have read the list before it returned (F103, witness class joinsc-list-read-after-return).
-	Mutate bool     `json:"mutate_list,omitempty"`
-	N      int      `json:"n,omitempty"`    // do: number of functions
-	Errs   []int    `json:"errs,omitempty"` // do: 0 = nil error, otherwise the error's id
-	Pairs  [][2]int `json:"pairs,omitempty"`
+	Mutate bool `json:"mutate_list,omitempty"`
+	// ONE producer goroutine ("rr") feeds all inputs round-robin (item j of every input before item j+1 of any) and
+	// closes them at the end: the inputs depend on each other — every one of them must be listened to for any to finish.
+	RoundRobin bool     `json:"round_robin,omitempty"`
+	N          int      `json:"n,omitempty"`    // do: number of functions
+	Errs       []int    `json:"errs,omitempty"` // do: 0 = nil error, otherwise the error's id
+	Pairs      [][2]int `json:"pairs,omitempty"`
 }
 
 // F is the user function of the fmap scenarios (the Lean driver uses the same one).
@@ -475,6 +478,54 @@ func MutateConfigs() []Config {
 					c := Config{Sys: "joinsc", Variant: variant, Caps: caps, Items: mkItems(counts), Mutate: true}
 					out = append(out, withSpecials(c, func(i, j int) int { return (2*i + 3*j) % 4 }))
 				}
+			}
+		}
+	}
+	return out
+}
+
+// RRConfigs: chan-of-chan / slice Join fed by a single round-robin producer over unbuffered inputs.
+func RRConfigs(sys string) []Config {
+	var out []Config
+	for _, variant := range Variants[sys] {
+		for n := 3; n <= 5; n++ {
+			for k := 1; k <= 2; k++ {
+				for oc := 0; oc <= 1; oc++ {
+					if sys != "joincc" && oc > 0 {
+						continue
+					}
+					counts, caps := make([]int, n), make([]int, n)
+					for i := range counts {
+						counts[i] = k
+					}
+					out = append(out, Config{Sys: sys, Variant: variant, OCap: oc, Caps: caps, Items: mkItems(counts), RoundRobin: true})
+				}
+			}
+		}
+	}
+	return out
+}
+
+// LongSliceConfigs: slice Join over MORE THAN 16 positions with one channel given twice, far apart.
+func LongSliceConfigs() []Config {
+	var out []Config
+	for _, variant := range Variants["joinsc"] {
+		for _, n := range []int{17, 20} { // distinct channels; positions = n + 1
+			for _, dupAt := range []int{0, 3} {
+				counts, caps := make([]int, n), make([]int, n)
+				for i := range counts {
+					if i == dupAt {
+						counts[i] = 3
+					} else if i%5 == 1 {
+						counts[i] = 1
+					}
+				}
+				sl := make([]int, 0, n+1)
+				for i := 0; i < n; i++ {
+					sl = append(sl, i)
+				}
+				sl = append(sl, dupAt) // the duplicate is the LAST position
+				out = append(out, Config{Sys: "joinsc", Variant: variant, Caps: caps, Items: mkItems(counts), Slice: sl})
 			}
 		}
 	}
